@@ -216,6 +216,18 @@ func genFsCase(r *Rng, out *outFiles) {
 				c19 = "a file was registered that does not match or does not exist: " + f
 			}
 		}
+		defRe := regexp.MustCompile(`:define="([^"]*)"`)
+		for f := range m.Files() {
+			full := f
+			if sub != "" {
+				full = sub + "/" + f
+			}
+			for _, mm := range defRe.FindAllStringSubmatch(files[full], -1) {
+				if _, isFile := m.Files()[mm[1]]; isFile {
+					c19 = fmt.Sprintf("file %q and the fragment %q defined in %q share a name, but no duplicate-name error was returned", mm[1], mm[1], f)
+				}
+			}
+		}
 		if _, e2 := m.GetTemplate("no/such/name"); !errors.Is(e2, html.ErrTplNotFound) {
 			c19 = "lookup of an unregistered name did not fail with ErrTplNotFound"
 		}
